@@ -504,7 +504,7 @@ func (te *TypeEnv) RangeFact(T types.Type, t Term) Term {
 		return Term{fmt.Sprintf("(and (>= (fid %s) 0) (=> (= (fid %s) 0) (= (fenv %s) 0)))", t.S, t.S, t.S), "Bool"}
 	case *types.Slice:
 		te.sliceSortOf(T)
-		return Term{fmt.Sprintf("(and (<= 0 (len_%s %s)) (<= (len_%s %s) (cap_%s %s)) (<= (cap_%s %s) 9223372036854775807) (=> (nil_%s %s) (= (len_%s %s) 0)) (=> (nil_%s %s) (= (cap_%s %s) 0)))",
+		return Term{fmt.Sprintf("(and (<= 0 (len_%s %s)) (<= (len_%s %s) (cap_%s %s)) (<= (cap_%s %s) 281474976710656) (=> (nil_%s %s) (= (len_%s %s) 0)) (=> (nil_%s %s) (= (cap_%s %s) 0)))",
 			t.Sort, t.S, t.Sort, t.S, t.Sort, t.S, t.Sort, t.S, t.Sort, t.S, t.Sort, t.S, t.Sort, t.S, t.Sort, t.S), "Bool"}
 	case *types.Struct:
 		si := te.Struct(T)
